@@ -5,7 +5,7 @@ use crate::rng::Rng;
 pub const ALPHABET: &[&str] = &[
     "@", "#", "~", "{", "}", "(", ")", "%", "|", "=", "-", "--", ">", ">>", ":", "/", ".", "*", "&", "?", "+", "\\",
     "[-", "-]", "[", "]", ",", "a", "word", "1", "0", "01", "é", "😀", " ", "  ", "\t", "\n", "\n\n", "\r\n", "---",
-    "kg", "min", "C", "[mode]", "\u{00A0}", "\u{000B}",
+    "kg", "min", "C", "[mode]", "\u{00A0}", "\u{000B}", "«", "—", "¡",
 ];
 
 /// characters that look innocent but are special for some routine (BOM, zero-width and Unicode spaces,
